@@ -68,7 +68,7 @@ func topCall(cfg ReadCfg) string {
 // C04: the message reader reassembles every valid frame stream exactly under
 // any chunking.
 func C04(r *eng.Run) {
-	cfg := drawReadCfg(r, []int{AppReader, AppReader, AppNextReader, AppReadMessage, AppReadData, AppReadData})
+	cfg := drawReadCfg(r, []int{AppReader, AppReader, AppReader, AppNextReader, AppNextReader, AppReadMessage, AppReadMessage, AppReadData, AppReadData, AppReadData, AppReadFrame})
 	r.SetEntry(cfg.Name())
 	s := GenStream(r, StreamCfg{Recv: cfg.Side, MaxMsgs: 6, TextValid: true, Rsv23: cfg.Extended})
 	if cfg.Extended {
